@@ -2,11 +2,12 @@
    option, list, prod, unit, sumbool map to OCaml's own; nat, positive, N, Z,
    ascii, string stay the extracted inductive types.  No Extract Constant. *)
 From Coq Require Import Extraction ExtrOcamlBasic NArith ZArith List.
-From AHK Require Import Lib.Res Lib.ByteStr Model.Request.
+From AHK Require Import Lib.Res Lib.ByteStr Model.Request Model.RequestSession.
 (* Coq's String/List/Nat modules would become String.ml/... and shadow OCaml's
    stdlib modules used by ocaml/drv.ml: have them renamed (String0.ml ...) *)
 Extraction Blacklist String List Nat Char Bytes.
 Separate Extraction Z.of_N Z.to_N N.of_nat N.to_nat
   render render_req conn_get conn_put conn_post parse_req
   jprint dump_bytes scan read_url parse_read_url
-  api_get_characteristics api_put_characteristics api_update_subscriptions.
+  api_get_characteristics api_put_characteristics api_update_subscriptions
+  step conn_init seal_id spec.
